@@ -14,6 +14,12 @@ COMMON_NOTE = (
 )
 TECH = "symbolic execution of the real Python on z3-backed proxy scalars (decision-tree re-execution), exact parametric-LP stub, SMT (QF_LRA) obligations per path, counterexamples replayed on the unshimmed code"
 CHECKS = {
+    "C13": {
+        "text": "One inductive step per operation instead of enumerated histories: from an arbitrary valid state (operands with symbolic constants, module state as at import) each of 18 operations (compose, quotient, merge, refines, rename, copy, simplify, both eliminations, optimize, bounds, dict/string conversions, parse, membership, emptiness, term-list set operations, evaluate) is executed symbolically; on every path, also when it raises, a deep snapshot of all operands, argument lists and module-level state (tactic tables, grammar elements, tolerances, numpy print options) is compared before/after with constants provably equal, an identity walk shows the result shares no mutable object with an operand, and the same call repeated on the same path returns an equal result (or fails alike). Unchanged operands and module state make 'state = import state' an invariant, which extends repeatability to any later point of any session.",
+        "design_ref": "DESIGN.md section 8 C13",
+        "note": COMMON_NOTE + " Histories longer than one step are covered by the invariant argument, not enumerated; Var objects, numbers and strings count as immutable; IoContract.simplify() is a documented in-place mutator and is excluded.",
+        "technique": TECH + "; inductive-step argument for histories",
+    },
     "C05": {
         "text": "The real iocontract.py (IoContract constructor, compose_tactics, quotient_tactics, merge, TermList set operations, lists.py) is executed over an abstract constraint domain: terms are uninterpreted predicates (z3 Bools at one arbitrary behaviour), and every primitive (refine/relax elimination, simplify, refines) is a nondeterministic stub constrained only by its documented contract. All primitive outcomes (ValueError, leftovers, fresh results, drops, refines True/False) are solver-decided forks; on every returning path the propositional form of C01/C02/C08 is one SAT query. Validity at an arbitrary behaviour is validity because all contracts and obligations are pointwise implications.",
         "design_ref": "DESIGN.md section 8 C05",
